@@ -12,6 +12,7 @@
 //!   A          the client puts ack_tick().unwrap_or(-1) on the ack channel
 //!   R<k> Y<k>  ack k reaches Storage::set_delta_tick (and stays) / is lost
 //!   F<v>       the value v appears on the ack channel
+//!   Z          the client calls Manager::reset()
 //!   I<msg>     a message nobody sent reaches the Manager (hostile; ends the agreement oracle for the history)
 //! items: <ty>/<id>=<int>,<int>..;...  with ty = o<ordinal> | u<32 hex digits>;  `-` = no items
 //! msg:   P:<tick>:<dt>:<num_parts>:<part>:<crc>:<hex> | S:<tick>:<dt>:<crc>:<hex> | E:<tick>:<dt>
@@ -147,6 +148,7 @@ enum Label {
     R(usize),
     Y(usize),
     F(i32),
+    Z,
     I(Msg),
 }
 impl Label {
@@ -160,6 +162,7 @@ impl Label {
             Label::R(k) => format!("R{}", k),
             Label::Y(k) => format!("Y{}", k),
             Label::F(v) => format!("F{}", v),
+            Label::Z => "Z".into(),
             Label::I(m) => format!("I{}", m.txt()),
         }
     }
@@ -546,6 +549,15 @@ impl<'a> Run<'a> {
                 self.acks.push(v);
                 "-".into()
             }
+            Label::Z => {
+                self.mgr.reset();
+                self.rstore.clear();
+                if self.mgr.ack_tick().is_some() {
+                    self.fail("-", "Manager::reset() left an acknowledged tick behind".to_string());
+                }
+                self.kinds.insert("reset".into());
+                "-".into()
+            }
         };
         self.toks.push(tok);
     }
@@ -927,6 +939,9 @@ fn history(o: &mut Out, r: &mut Rng, p: &Profile, modelled: bool) {
                 let hostile = p.net == Net::Hostile;
                 let chaos = p.net == Net::Chaos || hostile;
                 let forged = p.net == Net::Forged;
+                if r.chance(1, 50) {
+                    run.step(Label::Z);
+                }
                 let n_act = new + r.below(4) as usize;
                 for _ in 0..n_act {
                     let len = run.chan.len();
